@@ -55,6 +55,8 @@ pub fn normalise_msg(msg: &str) -> String {
 static PANICS: Mutex<Vec<PanicRec>> = Mutex::new(Vec::new());
 static PANIC_SEQ: AtomicU64 = AtomicU64::new(0);
 static VERBOSE: AtomicBool = AtomicBool::new(false);
+/// >0 while the case thread legitimately waits for a child process (whose CPU time is not ours)
+pub static EXTERNAL_WAITS: std::sync::atomic::AtomicUsize = std::sync::atomic::AtomicUsize::new(0);
 
 pub fn install_panic_hook(verbose: bool) {
     VERBOSE.store(verbose, Ordering::SeqCst);
@@ -166,6 +168,8 @@ where
     let mut result: Option<CaseOut> = None;
     let mut hung = false;
     let mut watchdog_fired = false;
+    let mut last_op = String::new();
+    let mut same_op_secs = 0;
     loop {
         match rx.recv_timeout(Duration::from_millis(1000)) {
             Ok(out) => {
@@ -174,7 +178,7 @@ where
             }
             Err(mpsc::RecvTimeoutError::Timeout) => {
                 let t = process_cpu_ticks();
-                if t.saturating_sub(last_ticks) <= 1 {
+                if t.saturating_sub(last_ticks) <= 1 && EXTERNAL_WAITS.load(Ordering::SeqCst) == 0 {
                     idle_samples += 1;
                 } else {
                     idle_samples = 0;
@@ -188,6 +192,23 @@ where
                 if start.elapsed() > watchdog {
                     watchdog_fired = true;
                     break;
+                }
+                // rule (a) early: a database thread has panicked and the case has made no visible progress
+                // (same pending call) for 12 s since - typically other workers now spin on state the dead thread left behind
+                let cur = op.get();
+                if peek_panics().iter().any(|p| p.in_repo()) && !cur.is_empty() {
+                    if cur == last_op {
+                        same_op_secs += 1;
+                    } else {
+                        same_op_secs = 0;
+                        last_op = cur;
+                    }
+                    if same_op_secs >= 12 {
+                        watchdog_fired = true;
+                        break;
+                    }
+                } else {
+                    same_op_secs = 0;
                 }
             }
             Err(mpsc::RecvTimeoutError::Disconnected) => break,
@@ -241,17 +262,27 @@ where
     }
     if !finished {
         let blocked = op.get();
+        let dead = panics.iter().filter(|p| p.in_repo()).map(|p| p.site()).next();
         if hung {
-            let dead = panics.iter().filter(|p| p.in_repo()).map(|p| p.site()).next().unwrap_or_else(|| "no-progress".into());
             out.failures.push(Failure::new(
                 "hang",
+                &dead.clone().unwrap_or_else(|| "no-progress".into()),
                 &format!("blocked:{}", blocked_class(&blocked)),
-                &dead,
                 format!("call '{}' did not return; process CPU time stopped advancing for 8s; panics={:?}", blocked, panics.iter().map(|p| p.site()).collect::<Vec<_>>()),
                 case_json.clone(),
             ));
         } else if watchdog_fired {
-            out.inconclusive.push(format!("watchdog fired after {:?} in '{}' with CPU still advancing", watchdog, blocked));
+            match dead {
+                // rule (a): a database-owned thread the pending call depends on has died (its panic is on record)
+                Some(site) => out.failures.push(Failure::new(
+                    "hang",
+                    &site,
+                    &format!("blocked:{}", blocked_class(&blocked)),
+                    format!("call '{}' did not return within {:?} (CPU still busy: other threads spin) after a database thread panicked; panics={:?}", blocked, watchdog, panics.iter().map(|p| p.site()).collect::<Vec<_>>()),
+                    case_json.clone(),
+                )),
+                None => out.inconclusive.push(format!("watchdog fired after {:?} in '{}' with CPU still advancing", watchdog, blocked)),
+            }
         } else {
             out.inconclusive.push("case thread vanished".into());
         }
